@@ -401,3 +401,98 @@ func (e *Exec) stableStoreCheck(addr ssa.Value, st *State, pos token.Pos) {
 	c.oblige("typeinv", fmt.Sprintf("typeinv.stable[%s]@b%d", key, e.curBlock.Index), st.pc, e.notAllocAtEntry(base),
 		"store to "+key+" (a field a type invariant depends on) only before the object is published", e.pos(pos))
 }
+
+// ---------------------------------------------------------------- immutable after publication
+
+// A struct type declared "immutable" is written only while the object is unpublished: the ghost
+// flag $unpub is set when the object is allocated and never cleared, and a function can know it
+// for an object it did not allocate itself only from a precondition unpublished(x) - a chain that
+// has to start at the allocation. Objects reachable by other goroutines (receivers of exported
+// methods, values loaded from shared state) have no such chain, so no store to them verifies.
+
+func (c *Ctx) isImmutableType(t types.Type) bool {
+	if len(c.CS.Immutable) == 0 {
+		return false
+	}
+	_, ok := c.CS.Immutable[typeString(t)]
+	return ok
+}
+
+// immutableStoreCheck is called for every store.
+func (e *Exec) immutableStoreCheck(addr ssa.Value, st *State, pos token.Pos) {
+	c := e.c
+	if len(c.CS.Immutable) == 0 {
+		return
+	}
+	fa, ok := addr.(*ssa.FieldAddr)
+	if !ok {
+		return
+	}
+	stT := deref(fa.X.Type())
+	if !c.isImmutableType(stT) {
+		return
+	}
+	base := e.val(fa.X).T
+	c.compSort["$unpub"] = "(Array Ref Bool)"
+	key := guardKeyOfAddr(addr)
+	c.oblige("lock.immutable", fmt.Sprintf("lock.immutable[%s]@b%d", key, e.curBlock.Index), st.pc, c.hsel(st.heap, "$unpub", base),
+		"store to "+key+" only while the object is unpublished (allocated here, or handed in under requires unpublished(...))", e.pos(pos))
+}
+
+// immutableCoverage: every zap function that stores to a field of an immutable type must be under
+// contract for the property.
+func immutableCoverage(P *Program, CS *Contracts, prop string) []string {
+	var out []string
+	if len(CS.Immutable) == 0 {
+		return nil
+	}
+	var ids []string
+	for id := range P.Funcs {
+		ids = append(ids, id)
+	}
+	sort.Strings(ids)
+	for _, id := range ids {
+		fn := P.Funcs[id]
+		if fn.Blocks == nil || fn.Synthetic != "" || !P.isZapPkg(pkgOf(fn)) {
+			continue
+		}
+		touched := map[string]bool{}
+		for _, b := range fn.Blocks {
+			for _, ins := range b.Instrs {
+				s, ok := ins.(*ssa.Store)
+				if !ok {
+					continue
+				}
+				fa, ok := s.Addr.(*ssa.FieldAddr)
+				if !ok {
+					continue
+				}
+				t := typeString(deref(fa.X.Type()))
+				if props, ok := CS.Immutable[t]; ok && hasProp(props, prop) {
+					if _, isAlloc := fa.X.(*ssa.Alloc); isAlloc {
+						continue // composite literal / local copy: the object is allocated right here
+					}
+					touched[t] = true
+				}
+			}
+		}
+		if len(touched) == 0 {
+			continue
+		}
+		con := CS.ByID["func "+id]
+		var ks []string
+		for k := range touched {
+			ks = append(ks, k)
+		}
+		sort.Strings(ks)
+		switch {
+		case con == nil:
+			out = append(out, fmt.Sprintf("%s stores to fields of %s but has no contract", id, strings.Join(ks, ", ")))
+		case con.Flags["trusted"]:
+			out = append(out, fmt.Sprintf("%s stores to fields of %s but its contract is trusted (body not verified)", id, strings.Join(ks, ", ")))
+		case !hasProp(con.Props, prop):
+			out = append(out, fmt.Sprintf("%s stores to fields of %s but its contract is not checked for %s", id, strings.Join(ks, ", "), prop))
+		}
+	}
+	return out
+}
